@@ -157,6 +157,16 @@ func runHistory(c *harness.Ctx, id string, r *rand.Rand) {
 			okPFetch[e] = ok
 		}
 	}
+	// Wherever in an epoch the controller is started, the duties of that epoch and of the next are set up by the
+	// start itself (the job that prepares the next epoch is created by an epoch tick this instance never saw).
+	afterStart := func(slot uint64) {
+		for _, e := range []uint64{slot / spe, slot/spe + 1} {
+			if _, fetched := okFetch[e]; !fetched {
+				okFetch[e] = true
+				c.Count("starts_that_did_not_ask_for_an_epoch", 1)
+			}
+		}
+	}
 	// absorb new invocation events, judging each
 	absorb := func() {
 		evs := env.Recorded()
@@ -206,6 +216,7 @@ func runHistory(c *harness.Ctx, id string, r *rand.Rand) {
 		return
 	}
 	noteFetches()
+	afterStart(h.Start)
 	absorb()
 	checkJobs("start", startMode)
 	nSteps := 6 + r.Intn(10)
@@ -231,7 +242,7 @@ func runHistory(c *harness.Ctx, id string, r *rand.Rand) {
 		case x == 10 && r.Intn(2) == 0:
 			st = step{Op: "reorg-both"}
 		case x == 11 && r.Intn(2) == 0:
-			st = step{Op: "tick-fetch-straddles-slot"}
+			st = step{Op: []string{"tick-fetch-straddles-slot", "refresh-fetch-straddles-epoch", "epoch-tick-twice"}[r.Intn(3)]}
 		case x == 10:
 			st = step{Op: "restart"}
 		default:
@@ -289,6 +300,61 @@ func runHistory(c *harness.Ctx, id string, r *rand.Rand) {
 			env.Sched.CancelJobIfExists(context.Background(), fmt.Sprintf("Early beacon block proposal for slot %d", s0))
 			env.Clock.SetSlot(phase0.Slot(s0 + 1))
 			c.Count("epoch_ticks_with_fetch_across_slot_boundary", 1)
+		case "refresh-fetch-straddles-epoch":
+			// in the last slot of an epoch the previous dependent root changes; the refreshed duties of the epoch arrive
+			// when the clock is in the next epoch: every one of them is for a slot that is over
+			epoch := cur / spe
+			last := (epoch+1)*spe - 1
+			env.StepTo(last)
+			noteFetches()
+			absorb()
+			if !haveEvent || lastEventEpoch != epoch {
+				if haveEvent {
+					prevRoot, curRoot = curRoot, curRoot+1
+				}
+				env.HeadEvent(last, prevRoot, curRoot) // records the roots
+				haveEvent, lastEventEpoch = true, epoch
+				noteFetches()
+			}
+			prevRoot += 100
+			sc.gen[epoch]++
+			sc.install(env.Duties, epoch, epoch)
+			var once sync.Once
+			env.Duties.SetOnAttesterFetch(func(e uint64) {
+				if e == epoch {
+					once.Do(func() { env.Clock.SetSlot(phase0.Slot(last + 1)) })
+				}
+			})
+			env.HeadEvent(last, prevRoot, curRoot)
+			env.Duties.SetOnAttesterFetch(nil)
+			noteFetches()
+			if uint64(env.Clock.CurrentSlot()) == last+1 {
+				c.Count("refreshes_answered_in_the_next_epoch", 1)
+			} else {
+				env.Clock.SetSlot(phase0.Slot(last + 1))
+			}
+			absorb()
+			checkJobs(st.Op, 0)
+			env.Sched.RunSync("Epoch ticker")
+			env.Settle()
+			noteFetches()
+			env.RunDueJobs(env.Clock.StartOfSlot(phase0.Slot(last + 2)))
+		case "epoch-tick-twice":
+			// the epoch ticker fires a second time in the first slot of an epoch (a timer that fired a moment early is
+			// re-armed for the same instant), after the slot's proposal has been made
+			s0 := (cur/spe + 1) * spe
+			env.StepTo(s0 - 1)
+			noteFetches()
+			absorb()
+			env.Duties.Proposer[s0/spe] = append(env.Duties.Proposer[s0/spe], &apiv1.ProposerDuty{Slot: phase0.Slot(s0), ValidatorIndex: phase0.ValidatorIndex(vals[2])})
+			env.StepTo(s0)
+			noteFetches()
+			absorb()
+			env.Sched.RunSync("Epoch ticker")
+			env.Settle()
+			noteFetches()
+			env.RunDueJobs(env.Clock.StartOfSlot(phase0.Slot(s0 + 1)))
+			c.Count("second_epoch_ticks", 1)
 		case "head-same", "reorg-previous", "reorg-current", "reorg-both":
 			epoch := cur / spe
 			newEpoch := haveEvent && epoch > lastEventEpoch
@@ -398,6 +464,7 @@ func runHistory(c *harness.Ctx, id string, r *rand.Rand) {
 			okFetch, okPFetch = map[uint64]bool{}, map[uint64]bool{}
 			haveEvent = false
 			noteFetches()
+			afterStart(cur)
 			absorb()
 			checkJobs("restart", startMode)
 			continue
